@@ -77,6 +77,15 @@ check("C01", "exploration",
       "reference serialiser written from the git format documentation; git 2.39.5; in-place mutation of returned lists is not a setter call and is excluded",
       "DESIGN.md §5 C01")
 
+check("C12", "exploration",
+      "runtime reference-model monitor: flat listings as model; every TreeChange list produced by the real tree_changes (all flag variants, RenameDetector, path filters, Python and Rust twins) is interpreted as an edit on flatten(a) and must give flatten(b); ids and raw diffs compared with git write-tree / diff-tree",
+      "Every listing of <=2 (thorough 3) entries over 9 conflict-prone names x 4 modes is paired with sampled partners, plus random larger pairs "
+      "with mode-only/type-only changes, file<->directory swaps and emptied directories: commit_tree/flatten/lookup inverse, canonical "
+      "entry order of every subtree, diff soundness+completeness+uniqueness under 7 flag variants, path filters vs the definitional "
+      "restriction, commit_tree_changes vs rebuild; git write-tree ids and git diff-tree raw output on random pairs.",
+      "flat-listing reference; with RenameDetector only soundness invariants are demanded; git 2.39.5",
+      "DESIGN.md §5 C12")
+
 ALL = ["C%02d" % i for i in range(1, 21)]
 
 
